@@ -14,10 +14,11 @@ type shape struct {
 	decls   string   // top-level declarations
 	entries []*Entry // Call templates may use $N
 	unordered bool
+	imports []string // extra imports of the file the shape is rendered into
 }
 
 func mkShapeProgram(name string, sh shape) *Program {
-	p := &Program{Name: name, Profile: "shape:" + sh.name, Tags: append([]string{sh.name}, sh.tags...), Unordered: sh.unordered}
+	p := &Program{Name: name, Profile: "shape:" + sh.name, Tags: append([]string{sh.name}, sh.tags...), Unordered: sh.unordered, Imports: sh.imports}
 	p.Decls = []*Decl{{Kind: "raw", Raw: strings.ReplaceAll(sh.decls, "$N", name)}}
 	for _, e := range sh.entries {
 		c := *e
@@ -556,6 +557,22 @@ $GEN{$NGen(a int)}{int}{
 	$YIELD{g(a)}
 	f = func(x int) int { return x * 10 }
 	$YIELD{g(a)}
+	$RET
+}`, entries: []*Entry{drive("$NGen", "int", 1, nil)}},
+	// the closure's parameter type is the file's ONLY use of the import; after eta reduction the import must go
+	// (the callee lives in another file of the package)
+	{name: "eta-param-type-is-the-only-use-of-an-import", tags: []string{"eta-shape"}, imports: []string{`"time"`}, decls: byGen + `
+var $NF = func(d time.Duration) int { return GVDur(d) }
+
+func $NB(a int) int {
+	g := func(d time.Duration) int { return GVDur(d) }
+	return $NF(3000000) + g(5000000) + a
+}`, entries: []*Entry{callEntry("$NB", 1, nil)}},
+	{name: "eta-param-type-only-import-in-generator-body", tags: []string{"eta-shape"}, imports: []string{`"time"`}, decls: `
+$GEN{$NGen(a int)}{int}{
+	g := func(d time.Duration) int { return GVDur(d) }
+	$YIELD{g(2000000) + a}
+	$YIELD{g(7000000)}
 	$RET
 }`, entries: []*Entry{drive("$NGen", "int", 1, nil)}},
 	{name: "eta-arg-evaluated-late", tags: []string{"eta-shape"}, decls: byGen + `
